@@ -1299,11 +1299,12 @@ export class AnyOfConstsRuntype extends BaseRuntype {
           case "string":
             acc.push(generateHashFromString(v));
             break;
+          // tagged like ConstRuntype.hash: 97 must not hash like "a", nor true like "true"
           case "number":
-            acc.push(generateHashFromNumbers([v]));
+            acc.push(generateHashFromString(`number:${v}`));
             break;
           case "boolean":
-            acc.push(generateHashFromString(v ? "true" : "false"));
+            acc.push(generateHashFromString(v ? "boolean:true" : "boolean:false"));
             break;
         }
       }
